@@ -60,6 +60,14 @@ var props = map[string]prop{
 		"fault.bitflip", "fault.truncate", "fault.splice", "node.undecodable"),
 	"C20": e1prop("C20", 240, 6000, e1Case+"2-4 light clients per run consume their node's ApplyUpdate/RevertUpdate stream after a JSON round trip of every update and must end with proofs that verify against the state exactly like in-memory clients (every tracked element, incl. spent ones and contracts, across reorgs).",
 		"probe.light.json-update", "reach.light-revert"),
+	"C02": e1prop("C02", 240, 6000, e1Case+"probe profile: at sampled reachable states the adversary builds blocks that contain a second use of an element (same transaction, two transactions, v1+v2, ephemeral, spent in an earlier block with pre-spend or maintained proof, siafunds), re-signed and re-sealed so that nothing else is wrong, and offers them to ValidateBlock on a private fork: every one must be rejected, every control accepted; over accepted histories the reference ledger refuses any repeated spend/resolution. Non-trivial = at least one probe row offered.",
+		"probe.D1-v1-same-txn.offered", "probe.D1-v2-same-txn.offered", "probe.D2-v1-v1.offered", "probe.D2-v2-v2.offered", "probe.D2-v1-v2.offered", "probe.D3-ephemeral-twice.offered", "probe.D4-v2-maintained-proof.offered", "probe.D4-v1-maintained-proof.offered", "probe.D2-sf-v2-v2.offered", "probe.D2-sf-v1-v1.offered"),
+	"C03": e1prop("C03", 240, 6000, e1Case+"probe profile: valid signed v1 (whole and partial covered fields) and v2 (every wallet policy kind) transactions are tampered with at one point (covered content, signature bit/drop/add/reorder, key index, other conditions/policy, opaque branch, attestation fields, Foundation updates), re-sealed and offered: tampered rejected, untampered accepted. Content rows are only asserted for inputs that carry a signature (a hash-lock binds nothing).",
+		"probe.A1-v1-control.offered", "probe.A1-v1-output-address.offered", "probe.A1-v1-sig-bitflip.offered", "probe.A1-v1-key-index.offered", "probe.A2-v2-control.offered", "probe.A2-v2-output-address.offered", "probe.A2-v2-sig-reordered.offered", "probe.A2-v2-preimage-flip.offered", "probe.A2-v2-needed-branch-opaque.offered", "probe.A4-value.offered", "probe.A5-v2-unauthorized.offered", "probe.A5-v2-authorized.offered", "probe.A5-v1-authorized.offered", "probe.A5-v1-partial-sig.offered"),
+	"C04": e1prop("C04", 240, 6000, e1Case+"probe profile: live elements are presented with one field, leaf index, proof hash or proof length altered, with another element's proof, as never-created or re-labelled spent elements, through v2 parents (ValidateBlock and ValidateTransactionElements) and through v1 supplement entries, rebalanced and re-signed so that only membership is wrong: all rejected, unmodified live elements accepted; accumulator = naive forest after every block.",
+		"probe.M-v2-control.offered", "probe.M1-value.offered", "probe.M1-address-steal.offered", "probe.M1-leaf-index.offered", "probe.M1-proof-bitflip.offered", "probe.M1-other-proof.offered", "probe.M2-never-created.offered", "probe.M1-maturity.offered", "probe.M1-sf-value.offered", "probe.M1-v1-supp-value.offered", "probe.M1-v1-supp-proof.offered"),
+	"C08": e1prop("C08", 240, 6000, e1Case+"probe profile: for each height/time rule the adversary builds the transaction that is valid except for the rule and advances a private fork of a reachable state with empty blocks so that it is offered in the block at bound-1 (must be rejected) and at bound (must be accepted); after(t) is driven to median == t (reject) and t+1s (accept) with chosen timestamps.",
+		"probe.T3-maturity-early.offered", "probe.T3-maturity-at-bound.offered", "probe.T2-v1-timelock-early.offered", "probe.T2-v2-uc-timelock-at-bound.offered", "probe.P1-above-early.offered", "probe.P1-above-at-bound.offered", "probe.P1-after-at-T.offered", "probe.P1-after-T-plus-1.offered", "probe.T1-v1-after-require-at-bound.offered", "probe.T1-v2-before-allow-early.offered"),
 	"C01": {
 		Parts:       []part{e1("C01", 240, 6000)},
 		Rule:        "one case = one seeded run of a 2-4 node Sia network (swarm-drawn network parameters, eras, fault kinds, workload mix); after every applied and every reverted block at every node the reference ledger (math/big, fed by block contents) is compared with the store built from the library's diffs, and the supply equation, miner payout, siafund count and claim amounts are checked. Non-trivial = the run applied blocks with transactions and the oracle ran; distinct = distinct SHA-256 of the event log.",
